@@ -53,6 +53,7 @@ static std::vector<Op> buildAlphabet(const std::string& name, Limits& L, const s
         A.push_back(opColPoint("ok", 1, L)); A.push_back(opColPoint("ok2", 2, L)); A.push_back(opColAnalog("ok", 1, L)); A.push_back(opColAnalog("ok2", 2, L));
         for (int r : {0, 1}) { A.push_back(opRegBuild(r, r)); A.push_back(opRegSubmit(r, "app", L)); A.push_back(opRegMut(r, "px")); }
         A.push_back(opRegSubmit(0, "0", L)); A.push_back(opRegSubmit(0, "n+1", L)); A.push_back(opRegMut(0, "ch")); A.push_back(opRegExt(0, L)); A.push_back(opRegCopy(1, 0));
+        A.push_back(opRegHold(0)); A.push_back(opRegMutHeld(0));
         for (size_t f : {0, 1, 2}) { A.push_back(opEditStored(f, "px")); }
         A.push_back(opEditStored(1, "ch"));
         for (auto t : {"app", "n", "n+2", "last"}) A.push_back(opSubmitStored(0, t, L));
@@ -79,6 +80,7 @@ static std::vector<Op> buildAlphabet(const std::string& name, Limits& L, const s
         for (auto g : {"POINT", "NEWG", "G2"}) for (auto n : {"X", "Y"}) for (auto& v : vals) A.push_back(opParam(g, n, pv(v), "d0", false, L));
         A.push_back(opParam("ANALOG", "X", pv("s22"), "d20", true, L)); A.push_back(opParam("NEWG", "X", pv("i7"), "d20", true, L)); A.push_back(opParam("POINT", "UNITS", pv("s1"), "d1", false, L));
         A.push_back(opParam("newg", "x", pv("f1"), "d1", false, L));
+        for (auto g : {"G2", "G3", "G4", "G5", "G6", "G7"}) A.push_back(opParamFromStored(g, L));
         for (auto g : {"POINT", "NEWG", "G2", "NOPE"}) { A.push_back(opLock(g, true)); A.push_back(opLock(g, false)); }
         A.push_back(opParamBad("NEWB", true, false)); A.push_back(opParamBad("POINT", false, true)); A.push_back(opParamBad("POINT", true, false));
         A.push_back(opPoint("A", L)); A.push_back(opRate("POINT", 100.f)); A.push_back(opFrame("ok", "app", 0, L));
@@ -141,6 +143,7 @@ int main(int argc, char** argv) {
         if (alphabet == "frames") roots = {{"events", "events=2;first=5"}, {"noanalog", "agroup=empty;chans=0;points=1"}};
         if (alphabet == "mut") roots = {{"events", "events=2;first=5"}, {"sparse", "ids=sparse;extra=all;order=paramsFirst"}, {"zeros", "zeros=7;prologue=0000;frames=1"}, {"noanalog", "agroup=empty;chans=0;points=1"}};
         if (alphabet == "build") roots = {{"events", "events=18;first=705"}, {"extra", "extra=all;descs=d127;locks=yes"}, {"str1d", "extra=str1d;ids=swapped"}, {"labels", "labels=more;alabels=fewer;points=3"}, {"noanalog", "agroup=empty;chans=0"}};
+        if (alphabet == "params") roots = {{"described", "extra=all;locks=yes"}, {"sparse", "ids=sparse"}};
         if (alphabet == "lookup") roots = {{"labels", "labels=fewer;alabels=more;points=3"}, {"events", "events=2"}};
         std::string rdir = scratch + "/roots"; mkdir(rdir.c_str(), 0755);
         for (auto& r : roots) { gen::Content c; gen::Layout l; if (!gen::apply(gen::parseChoice(r.second), c, l)) continue; std::string b = gen::encode(c, l); std::string p = rdir + "/" + r.first + ".c3d"; FILE* f = fopen(p.c_str(), "wb"); fwrite(b.data(), 1, b.size(), f); fclose(f); E.rootOps.push_back((int)E.ops.size()); E.ops.push_back(opLoadRoot(r.first + ":" + r.second, p)); }
